@@ -77,6 +77,7 @@ type gatedHarness struct {
 	st         *stats
 	caseOps    []string
 	diverged   bool
+	divOp      int // h.st.Ops when diverged was set
 	stampCtr   int
 	// oracle bookkeeping (spec state)
 	pending  map[int][]int // accepted, not yet composed, per id (arrival order)
@@ -92,10 +93,21 @@ func (h *gatedHarness) oracle(f string, a ...any) {
 		return
 	}
 	h.diverged = true
+	h.divOp = h.st.Ops
 	h.st.hit("oracle-failure")
 	if len(h.st.Oracle) < 40 {
 		h.st.Oracle = append(h.st.Oracle, fmt.Sprintf(f, a...)+" || case: "+strings.Join(h.caseOps, " ; "))
 	}
+}
+
+// oracleSameOp: like oracle, but a clause broken by the very operation that has just been reported
+// under another clause (the bookkeeping is still sound up to this operation) is recorded as well
+func (h *gatedHarness) oracleSameOp(f string, a ...any) {
+	if h.diverged && h.divOp == h.st.Ops {
+		h.oracleAlso(f, a...)
+		return
+	}
+	h.oracle(f, a...)
 }
 
 // oracleAlso records a second clause broken by the operation that has just been reported
@@ -236,12 +248,12 @@ func (h *gatedHarness) checkEmits(inflight *gpay) {
 			want = append(want, inflight.uid)
 		}
 		if !eqInts(want, e.uids) {
-			h.oracle("C11 composition for id %d received %v, but the events accepted for that id since its group opened are %v", e.id, e.uids, want)
+			h.oracleSameOp("C11 composition for id %d received %v, but the events accepted for that id since its group opened are %v", e.id, e.uids, want)
 		}
 		for _, u := range e.uids {
 			h.composed[u]++
 			if h.composed[u] > 1 {
-				h.oracle("C11 event %d handed to composition %d times", u, h.composed[u])
+				h.oracleSameOp("C11 event %d handed to composition %d times", u, h.composed[u])
 			}
 		}
 		if e.fate == "composed" && h.broker {
